@@ -35,6 +35,10 @@ pub struct Transfer {
     /// gets a body of the intended number of blocks
     #[serde(default)]
     pub budget: usize,
+    /// downloads: the second request asks for block 0 again, with the largest
+    /// block size (a client that changed its mind)
+    #[serde(default)]
+    pub reask_first: bool,
 }
 
 #[derive(Clone, Debug, PartialEq, Eq, Hash, Serialize, Deserialize)]
@@ -180,6 +184,10 @@ fn solo(budget: usize, idx: usize, t: &Transfer) -> Result<(Vec<ReqSpec>, Vec<En
         let mut b2 = if t.early { Some(block_bytes(0, false, t.szx)) } else { None };
         let mut received = 0usize;
         for step in 0..t.exchanges.clamp(1, 5) as usize {
+            if t.reask_first && step == 1 {
+                b2 = Some(block_bytes(0, false, 6));
+                received = 0;
+            }
             let req = t.req(idx, step, None, b2.clone(), vec![]);
             let (e, out) = one_exchange(&mut handler, t, &req)?;
             reqs.push(req);
@@ -214,6 +222,15 @@ fn interleavings(lens: &[usize], cur: &mut Vec<usize>, pos: &mut Vec<usize>, f: 
 }
 
 pub fn check_set(_ctx: &Ctx, s: &ScriptSet, acc: &mut Acc) -> Result<(), Fail> {
+    // the statement is about transfers that differ in endpoint, method or path
+    for (i, a) in s.transfers.iter().enumerate() {
+        for b in &s.transfers[i + 1..] {
+            if a.endpoint == b.endpoint && a.method == b.method && a.path == b.path {
+                acc.class("skipped-two-transfers-with-one-key");
+                return Ok(());
+            }
+        }
+    }
     let mut scripts = Vec::new();
     let mut solos = Vec::new();
     for (i, t) in s.transfers.iter().enumerate() {
@@ -281,6 +298,8 @@ pub fn check_set(_ctx: &Ctx, s: &ScriptSet, acc: &mut Acc) -> Result<(), Fail> {
         "method" => acc.class("sets:differ-in-method"),
         "path" => acc.class("sets:differ-in-path"),
         "path-segmentation" => acc.class("sets:differ-in-path-segmentation"),
+        "path-slash-moved" => acc.class("sets:differ-in-where-the-slash-is"),
+        "endpoint-on-well-known-core" => acc.class("sets:two-endpoints-on-.well-known/core"),
         "path-prefix" => acc.class("sets:differ-in-path-prefix"),
         "path-leading-empty-segment" => acc.class("sets:differ-in-leading-empty-segment"),
         "path-long-segments" => acc.class("sets:differ-in-255-byte-segments"),
@@ -301,6 +320,7 @@ fn transfer(upload: bool) -> BoxedStrategy<Transfer> {
             vary_token_len,
             query: vec![],
             budget: 0,
+            reask_first: false,
             upload,
             endpoint: 1,
             method: if upload { [2u8, 3, 5, 6, 7][(seed % 5) as usize] } else { [1u8, 5, 1, 1, 2][(seed % 5) as usize] },
@@ -402,6 +422,32 @@ fn script_set(three: bool) -> BoxedStrategy<ScriptSet> {
                 let (head, tail) = ts.split_at_mut(1);
                 label.push_str(differ(&head[0], &mut tail[0], how1));
             }
+            if how1 >= 40 && label != "method" {
+                // two more pairs, each changing both transfers
+                let a = ts[0].clone();
+                ts[1].endpoint = a.endpoint;
+                ts[1].method = a.method;
+                ts[1].upload = a.upload;
+                ts[1].query = a.query.clone();
+                if how1 % 2 == 0 {
+                    // the same text, the same number of segments, the slash moved
+                    ts[0].path = vec![b"a/b".to_vec(), b"c".to_vec()];
+                    ts[1].path = vec![b"a".to_vec(), b"b/c".to_vec()];
+                    label = "path-slash-moved".to_string();
+                } else {
+                    // two endpoints fetching the discovery resource
+                    ts[0].path = vec![b".well-known".to_vec(), b"core".to_vec()];
+                    ts[0].query = vec![];
+                    ts[1].path = ts[0].path.clone();
+                    ts[1].query = vec![];
+                    ts[1].endpoint = a.endpoint + 1;
+                    if !a.upload {
+                        ts[0].method = 1;
+                        ts[1].method = 1;
+                    }
+                    label = "endpoint-on-well-known-core".to_string();
+                }
+            }
             if ts.len() == 3 {
                 // the third differs from the first in one component and from
                 // the second in one component: vary the same component again
@@ -434,8 +480,9 @@ fn script_set(three: bool) -> BoxedStrategy<ScriptSet> {
                 s.push(b'0');
                 ts[0].path = vec![s];
             }
-            for t in ts.iter_mut() {
+            for (i, t) in ts.iter_mut().enumerate() {
                 t.budget = if label.contains("long") { budget + 300 } else { budget };
+                t.reask_first = !t.upload && (how2 as usize + i) % 4 == 0;
             }
             // uploads and downloads may use any method code
             ScriptSet { budget: if label.contains("long") { budget + 300 } else { budget }, transfers: ts, differ_in: label }
